@@ -105,7 +105,7 @@ class DynamicEndmarkerField(Field):
         result: List[ParameterValue] = []
         while True:
             # check if we're at the end of the PDU
-            if decode_state.cursor_byte_position == len(decode_state.coded_message):
+            if decode_state.cursor_byte_position >= len(decode_state.coded_message):
                 break
 
             # check if the cursor currently points to a termination
